@@ -197,6 +197,10 @@ func (s *Set) M__bool__() (Object, error) {
 }
 
 func (s *Set) M__repr__() (Object, error) {
+	if err := enterContainer(); err != nil {
+		return nil, err
+	}
+	defer leaveContainer()
 	var out bytes.Buffer
 	out.WriteRune('{')
 	spacer := false
